@@ -119,7 +119,7 @@ def run(ctx):
     ndist = 600 if thorough else 200
     fnof = {}
     for fname, fn in fns.items():
-        for t in range(ndist):
+        for t in range(ndist + ndist // 2):
             nobj = rng.choice([2, 2, 3])
             npt = rng.choice([1, 2, 3, 4, 6])
             g = rng.choice([2, 3, 4])
@@ -135,7 +135,20 @@ def run(ctx):
             L = [rng.randrange(0, 3) for _ in range(nobj)]
             if not any(L):
                 L[rng.randrange(nobj)] = 1
-            m = np.array(pts, float)
+            den = 1.0
+            if t % 5 == 1 or t >= ndist:
+                # all objectives improve together and the preference is equal: every scaled point lies ON the preference
+                # line (distance exactly 0), at coordinates such as 1/3, 2/7 that are not representable
+                npt = rng.choice([3, 4, 5, 7])
+                ks = rng.sample(range(0, 8 if nobj == 3 else 10), npt)
+                step = [rng.choice([1, 2] if nobj == 3 else [1, 2, 3]) for _ in range(nobj)]
+                base = [rng.randrange(-20, 20) for _ in range(nobj)]
+                pts = [[base[j] + sg[j] * k * step[j] for j in range(nobj)] for k in ks]
+                L = [rng.choice([1, 2])] * nobj
+                # min-max scaling makes the distance invariant under a common positive factor: the function receives the
+                # points divided by den (coordinates such as 0.3 that are not representable), TLC the integer points
+                den = float(rng.choice([1, 10, 100, 3, 7]))
+            m = np.array(pts, float) / den
             ranges = []
             for j in range(nobj):
                 col = [sg[j] * p[j] for p in pts]
